@@ -559,6 +559,37 @@ def _enum_to_json(enum_class: Type["Enum"], value: int) -> Union[str, int]:
         return int(value)
 
 
+def _scalar_to_json(proto_type: str, value: Any) -> Any:
+    """The proto3 JSON form of a scalar value (64-bit integers, bytes and floats)."""
+    if proto_type in INT_64_TYPES:
+        return str(value)
+    if proto_type == TYPE_BYTES:
+        return b64encode(value).decode("utf8")
+    if proto_type in (TYPE_FLOAT, TYPE_DOUBLE):
+        return _dump_float(value)
+    return value
+
+
+def _scalar_from_json(proto_type: str, value: Any) -> Any:
+    """Inverse of :func:`_scalar_to_json`."""
+    if proto_type in INT_64_TYPES:
+        return int(value)
+    if proto_type == TYPE_BYTES:
+        return b64decode(value)
+    if proto_type in (TYPE_FLOAT, TYPE_DOUBLE):
+        return _parse_float(value)
+    return value
+
+
+def _map_key_from_json(proto_type: str, key: Any) -> Any:
+    """JSON object keys are strings, convert them back to the key type of the map."""
+    if not isinstance(key, str) or proto_type == TYPE_STRING:
+        return key
+    if proto_type == TYPE_BOOL:
+        return key == "true"
+    return int(key)
+
+
 def _equal_up_to_nan(left: Any, right: Any) -> bool:
     """
     Equality which considers two nan values to be the same for the purposes of
@@ -1560,6 +1591,10 @@ class Message(ABC):
                         output[cased_name] = _Duration.delta_to_json(value)
                 elif meta.wraps:
                     if value is not None or include_default_values:
+                        if isinstance(value, list):
+                            value = [_scalar_to_json(meta.wraps, i) for i in value]
+                        elif value is not None:
+                            value = _scalar_to_json(meta.wraps, value)
                         output[cased_name] = value
                 elif field_is_repeated:
                     # Convert each item.
@@ -1586,10 +1621,18 @@ class Message(ABC):
                 ):
                     output[cased_name] = value.to_dict(casing, include_default_values)
             elif meta.proto_type == TYPE_MAP:
-                output_map = {**value}
-                for k in value:
-                    if hasattr(value[k], "to_dict"):
-                        output_map[k] = value[k].to_dict(casing, include_default_values)
+                assert meta.map_types
+                output_map = {}
+                for k, v in value.items():
+                    if hasattr(v, "to_dict"):
+                        output_map[k] = v.to_dict(casing, include_default_values)
+                    elif meta.map_types[1] == TYPE_ENUM:
+                        enum_class = self._betterproto.cls_by_field[
+                            f"{field_name}.value"
+                        ]
+                        output_map[k] = _enum_to_json(enum_class, v)
+                    else:
+                        output_map[k] = _scalar_to_json(meta.map_types[1], v)
 
                 if value or include_default_values:
                     output[cased_name] = output_map
@@ -1679,9 +1722,33 @@ class Message(ABC):
                         if isinstance(value, list)
                         else sub_cls.from_dict(value)
                     )
-            elif meta.map_types and meta.map_types[1] == TYPE_MESSAGE:
+                else:
+                    value = (
+                        [_scalar_from_json(meta.wraps, item) for item in value]
+                        if isinstance(value, list)
+                        else _scalar_from_json(meta.wraps, value)
+                    )
+            elif meta.map_types:
+                key_type, value_type = meta.map_types
                 sub_cls = cls._betterproto.cls_by_field[f"{field_name}.value"]
-                value = {k: sub_cls.from_dict(v) for k, v in value.items()}
+                if value_type == TYPE_MESSAGE:
+                    convert = sub_cls.from_dict
+                elif value_type == TYPE_ENUM:
+
+                    def convert(item: Any, enum_cls: Any = sub_cls) -> Any:
+                        return (
+                            enum_cls.from_string(item) if isinstance(item, str) else item
+                        )
+
+                else:
+
+                    def convert(item: Any) -> Any:
+                        return _scalar_from_json(value_type, item)
+
+                value = {
+                    _map_key_from_json(key_type, k): convert(v)
+                    for k, v in value.items()
+                }
             else:
                 if meta.proto_type in INT_64_TYPES:
                     value = (
